@@ -274,3 +274,27 @@ func normalizeSliceIndices(start, end value, length int) (int, int, error) {
 	}
 	return startIdx, endIdx, nil
 }
+
+// deepCopy copies the given value, copying the elements of arrays and
+// maps recursively. It is used by the array repetition operator, which
+// is the only place in evy where array and map references are
+// "dereferenced".
+func deepCopy(val value) value {
+	switch v := val.(type) {
+	case arrayVal:
+		elements := make([]value, len(v.Elements))
+		for i, e := range v.Elements {
+			elements[i] = deepCopy(e)
+		}
+		return arrayVal{Elements: elements}
+	case mapVal:
+		order := make([]stringVal, len(v.order))
+		copy(order, v.order)
+		m := make(map[stringVal]value, len(v.m))
+		for k, e := range v.m {
+			m[k] = deepCopy(e)
+		}
+		return mapVal{order: order, m: m}
+	}
+	return val
+}
